@@ -263,6 +263,9 @@ Proof.
   - rewrite (ksum_nil K k0 kadd). apply (ksum_zero_ext K k0 k1 kadd kmul ksub kopp kzero Hring).
     intros x Hx. apply in_seq in Hx. apply HF; [lia|tauto].
   - inversion Hnd as [|a r Hb Hr']; subst. rewrite (ksum_cons K k0 kadd).
+    transitivity (kadd (F b) (ksum sel (fun x => if Nat.eqb x b then k0 else F x))).
+    2:{ f_equal. apply (ksum_ext K k0 kadd). intros x Hx. destruct (Nat.eqb x b) eqn:E; [|reflexivity].
+        apply Nat.eqb_eq in E. subst. contradiction. }
     rewrite <- (IH (fun x => if Nat.eqb x b then k0 else F x) Hr').
     + transitivity (kadd (ksum (seq 0 nb) (fun x => if Nat.eqb x b then F b else k0))
                          (ksum (seq 0 nb) (fun x => if Nat.eqb x b then k0 else F x))).
@@ -276,8 +279,6 @@ Proof.
     + intros x Hx. apply Hsel. right; exact Hx.
     + intros x Hx Hn. destruct (Nat.eqb x b) eqn:E; [reflexivity|]. apply HF; [exact Hx|].
       intros [->|Hin]; [rewrite Nat.eqb_refl in E; discriminate|contradiction].
-    + apply (ksum_ext K k0 kadd). intros x Hx. destruct (Nat.eqb x b) eqn:E; [|reflexivity].
-      apply Nat.eqb_eq in E. subst. contradiction.
 Qed.
 
 Lemma ksum_support2 : forall (nb : nat) (F : nat -> nat -> K) (sel : list (nat * nat)),
@@ -291,6 +292,10 @@ Proof.
     apply in_seq in HL. apply in_seq in HR. apply HF; [lia|lia|tauto].
   - inversion Hnd as [|a r Hb Hr']; subst. rewrite (ksum_cons K k0 kadd). cbn [fst snd].
     destruct (Hsel L0 R0 (or_introl eq_refl)) as [HL0 HR0].
+    transitivity (kadd (F L0 R0) (ksum sel (fun LR => if Nat.eqb (fst LR) L0 && Nat.eqb (snd LR) R0 then k0 else F (fst LR) (snd LR)))).
+    2:{ f_equal. apply (ksum_ext K k0 kadd). intros [L R] Hin. cbn [fst snd].
+        destruct (Nat.eqb L L0 && Nat.eqb R R0) eqn:E; [|reflexivity].
+        apply andb_true_iff in E. destruct E as [E1 E2]. apply Nat.eqb_eq in E1. apply Nat.eqb_eq in E2. subst. contradiction. }
     rewrite <- (IH (fun L R => if Nat.eqb L L0 && Nat.eqb R R0 then k0 else F L R) Hr'
                   (fun L R HLR => Hsel L R (or_intror HLR))).
     + transitivity (kadd (ksum (seq 0 nb) (fun L => ksum (seq 0 nb) (fun R => if Nat.eqb L L0 && Nat.eqb R R0 then F L0 R0 else k0)))
@@ -312,9 +317,6 @@ Proof.
            destruct (Nat.eqb L L0) eqn:E; [apply Nat.eqb_eq in E; congruence|reflexivity].
     + intros L R HL HR Hn. destruct (Nat.eqb L L0 && Nat.eqb R R0) eqn:E; [reflexivity|]. apply HF; [exact HL|exact HR|].
       intros [Heq|Hin]; [|contradiction]. inversion Heq; subst. rewrite !Nat.eqb_refl in E. discriminate.
-    + apply (ksum_ext K k0 kadd). intros [L R] Hin. cbn [fst snd].
-      destruct (Nat.eqb L L0 && Nat.eqb R R0) eqn:E; [|reflexivity].
-      apply andb_true_iff in E. destruct E as [E1 E2]. apply Nat.eqb_eq in E1. apply Nat.eqb_eq in E2. subst. contradiction.
 Qed.
 
 (** sum over all Fock states = sum over blocks of the sum over the block's states *)
@@ -357,8 +359,9 @@ Proof.
   (* full sum = sum over all (L, R) of F L R *)
   transitivity (ksum (seq 0 nb) (fun L => ksum (seq 0 nb) (fun R => F L R))).
   { rewrite blocks_sum_eq_full. apply (ksum_ext K k0 kadd). intros L _. unfold F.
-    rewrite (ksum_swap K k0 k1 kadd kmul ksub kopp kzero Hring). apply (ksum_ext K k0 kadd). intros t _.
-    apply blocks_sum_eq_full. }
+    transitivity (ksum (nth L (sc_blocks c) []) (fun t => ksum (seq 0 nb) (fun R => ksum (nth R (sc_blocks c) []) (fun s => f t s)))).
+    - apply (ksum_ext K k0 kadd). intros t _. apply blocks_sum_eq_full.
+    - apply (ksum_swap K k0 k1 kadd kmul ksub kopp kzero Hring). }
   assert (HF : forall L R, L < nb -> R < nb -> ~ In (L, R) sel -> F L R = k0).
   { intros L R HL HR Hn. unfold F. apply (ksum_zero_ext K k0 k1 kadd kmul ksub kopp kzero Hring). intros t Ht.
     apply (ksum_zero_ext K k0 k1 kadd kmul ksub kopp kzero Hring). intros s Hs.
